@@ -948,6 +948,11 @@ class IRGenerator:
         """
         arg_dt = self._resolve_type(env, route._ast_node.arg_type_ref)
         result_dt = self._resolve_type(env, route._ast_node.result_type_ref)
+        if route._ast_node.error_type_ref is None:
+            raise InvalidSpec(
+                'Route %s must specify argument, result and error data types.' %
+                quote(route.name),
+                route._ast_node.lineno, route._ast_node.path)
         error_dt = self._resolve_type(env, route._ast_node.error_type_ref)
 
         ast_deprecated = route._ast_node.deprecated
